@@ -441,7 +441,8 @@ func (j *c17Judge) judgeResponse(c *c17Case, resp *vfResp) []c17Finding {
 	for _, k := range []string{"Content-Length", "Transfer-Encoding", "Connection"} {
 		delete(got, k)
 	}
-	if ga := got["Gap-Auth"]; len(ga) != 1 || (ga[0] != vfStdIdentity.Email && ga[0] != vfStdIdentity.Sub) {
+	// Gap-Auth is a documented *addition*: its presence is not demanded here, only that nothing else is passed off as it
+	if ga, ok := got["Gap-Auth"]; ok && (len(ga) != 1 || (ga[0] != vfStdIdentity.Email && ga[0] != vfStdIdentity.Sub)) {
 		add("c17:response-header-changed", "Gap-Auth (documented addition) is %q", ga)
 	}
 	delete(got, "Gap-Auth")
@@ -518,6 +519,13 @@ func (j *c17Judge) judgeUnder(s *c17Set, d c17Decision, c *c17Case, req *vfReq, 
 		return up
 	}
 	if d.Kind == "upstream" && d.Up.Kind == "http" {
+		if nHits == 0 && d.Up.Rewrite != "" && strings.Contains(strings.ToUpper(c.Path), "%3F") {
+			if e := c17ExpectRewrite(d.Up, c.Path); e.EscReserved && e.LitBroken && resp.Code >= 400 {
+				// known deviation F9, collapsed variant: the rewritten target is empty ("" or "?") and the upstream's HTTP parser refuses it
+				add(c17SigF9, "rule %s -> %s: request %q — the escaped '?' was decoded, the remainder is no parsable query, the rewritten target is empty and was never served (client got %d)", d.Up.Path, d.Up.Rewrite, c.Target(), resp.Code)
+				return f
+			}
+		}
 		switch {
 		case nHits == 0:
 			add("c17:not-delivered", "reference: %s; no upstream received the request, client got %d (Location %q)", d, resp.Code, resp.Location())
@@ -587,7 +595,7 @@ func (j *c17Judge) judgeUnder(s *c17Set, d c17Decision, c *c17Case, req *vfReq, 
 				// known deviation F9 seen through a file upstream: the escaped '?' is decoded and cuts the rewritten path
 				e := c17ExpectRewrite(d.Up, c.Path)
 				lk, lc := c17FileLookup(e.LitPath)
-				if (lk == "file" && resp.Code == 200 && (c.Method == "HEAD" || string(resp.Body) == lc)) || (lk == "none" && resp.Code == 404) || (lk == "dir" && (resp.Code == 200 || resp.Code == 301)) {
+				if (lk == "file" && resp.Code == 200 && (c.Method == "HEAD" || string(resp.Body) == lc)) || (lk == "none" && resp.Code == 404) || (lk == "dir" && (resp.Code == 200 || resp.Code == 301)) || (e.LitBroken && (resp.Code == 500 || resp.Code == 200 || resp.Code == 301)) {
 					ff = []c17Finding{{c17SigF9, fmt.Sprintf("rule %s -> %s (file upstream): %q names %q, but the escaped '?' was decoded and cut the path to %q: status %d", d.Up.Path, d.Up.Rewrite, c.Path, rel, e.LitPath, resp.Code)}}
 				}
 			}
@@ -689,7 +697,7 @@ func (j *c17Judge) judge(s *c17Set, c *c17Case) {
 			continue
 		}
 		seen[f.Sig] = true
-		run.Violation(f.Sig, fmt.Sprintf("[set %s] %s %s: %s", s.Name, c.Method, vfTrunc(c.Target(), 120), f.Msg), j.witness(s, c, req, &bestD, resp, hits))
+		run.Violation(f.Sig, fmt.Sprintf("[set %s] %s %s: %s", s.Name, c.Method, vfTrunc(c.Target(), 120), vfTrunc(f.Msg, 700)), j.witness(s, c, req, &bestD, resp, hits))
 	}
 	run.SampleEvery(1499, func() interface{} {
 		return map[string]interface{}{"set": s.Name, "case": c, "reference": bestD.String(), "status": resp.Code, "findings": len(best)}
@@ -757,17 +765,21 @@ func TestVerif_C17(t *testing.T) {
 		return
 	}
 
-	perSet := run.Env.Pick(520, 14000)
-	for si, s := range sets {
+	// All instances are built before the first request is served: option validation reconfigures the process-wide
+	// logger, which a real process does once before serving (building later would race with request logging).
+	for _, s := range sets {
 		if err := s.build(w); err != nil {
 			t.Fatalf("c17: %v", err)
 		}
-		cases := c17CoreCases(s)
+	}
+	perSet := run.Env.Pick(400, 14000)
+	for si, s := range sets {
+		cases := c17CoreCases(s, run.Env.Thorough())
 		r := rand.New(rand.NewSource(run.Env.Seed*1000003 + int64(si)*7919 + 17))
 		for k := 0; k < perSet; k++ {
 			cases = append(cases, c17RandomCase(r, s, run.Env.Thorough()))
 		}
-		c17Finalize(cases, fmt.Sprintf("c17-%d-%d", run.Env.Seed, si))
+		c17Finalize(cases, fmt.Sprintf("c17-%d-%d", run.Env.Seed, si), s)
 		const batch = 1500
 		for lo := 0; lo < len(cases); lo += batch {
 			hi := lo + batch
@@ -782,6 +794,7 @@ func TestVerif_C17(t *testing.T) {
 			sent.Range(func(k, _ interface{}) bool { sent.Delete(k); return true })
 		}
 		run.Count("sets", 1)
+		s.Proxy.Server().Close() // waits for the connection goroutines of this instance
 	}
 	for _, must := range []string{"decision_http", "decision_http+rewrite", "decision_static", "decision_file", "decision_file+rewrite", "decision_redirect-clean", "decision_redirect-slash", "decision_notfound"} {
 		if run.Counter(must) == 0 {
@@ -790,7 +803,7 @@ func TestVerif_C17(t *testing.T) {
 			t.Fail()
 		}
 	}
-	run.Finish(int64(run.Env.Pick(4500, 80000)), run.Env.Pick(1500, 12000))
+	run.Finish(int64(run.Env.Pick(5500, 75000)), run.Env.Pick(2200, 50000))
 }
 
 func c17Replay(j *c17Judge, sets []*c17Set, file string) {
